@@ -517,3 +517,120 @@ def rule_linop(ctx):
                           where=f"{m.module.relpath}:{m.lineno}"))
     r.floor(nev, 3, "evaluating methods of TNLinearOperator")
     return r
+
+
+# --------------------------------------------------------- carrier-derivation
+CARRIER_RETURNING = ("partition_tensors", "partition")
+
+
+def _carries_exponent(expr, me):
+    s = src_of(expr).replace(" ", "")
+    if s == me or s.startswith(f"{me}.copy("):
+        return True
+    if isinstance(expr, ast.IfExp):
+        return _carries_exponent(expr.body, me) and _carries_exponent(expr.orelse, me)
+    if isinstance(expr, ast.Call) and isinstance(expr.func, ast.Attribute) and src_of(expr.func.value) == me and (
+        expr.func.attr.startswith("select") or expr.func.attr.startswith("_select")
+    ):
+        return any(k.arg == "with_exponent" and const_value(k.value, None) is True for k in expr.keywords)
+    return False
+
+
+def rule_carrier_derivation(ctx):
+    r = RuleResult(
+        "carrier-derivation",
+        "the routines whose first result is used as the *remaining network* by the tag-based contraction routes "
+        "(partition_tensors, partition) hand back a network that carries the receiver's exponent on every "
+        "branch: it is the receiver, a copy of it, a selection made with with_exponent=True, or its exponent is "
+        "assigned from self.exponent before it is returned",
+    )
+    cls = ctx.prog.cls("quimb.tensor.tensor_core", "TensorNetwork")
+    for name in CARRIER_RETURNING:
+        f = cls.methods.get(name)
+        if f is None or f.is_alias:
+            raise AnalysisError(f"TensorNetwork.{name} not found")
+        me = f.posparams[0]
+        where = f"{f.module.relpath}:{f.lineno}"
+        rets = [n for n in ast.walk(f.node) if isinstance(n, ast.Return) and n.value is not None]
+        if not rets:
+            raise AnalysisError(f"{name} has no return")
+        for rt in rets:
+            first = rt.value.elts[0] if isinstance(rt.value, ast.Tuple) and rt.value.elts else rt.value
+            if not isinstance(first, ast.Name):
+                if _carries_exponent(first, me):
+                    r.ok(f"TensorNetwork.{name}", sample={"returns": src_of(first)})
+                else:
+                    r.bad(Finding("carrier-derivation", f"TensorNetwork.{name}", f"returns `{src_of(first)[:40]}` which does not carry {me}.exponent", where=where))
+                continue
+            X = first.id
+            # all bindings of X, grouped by the `if inplace` arm they sit in
+            binds = []
+            for n in ast.walk(f.node):
+                if isinstance(n, ast.Assign):
+                    for t in n.targets:
+                        if isinstance(t, ast.Name) and t.id == X:
+                            binds.append((n, n.value))
+                        elif isinstance(t, ast.Tuple) and isinstance(n.value, ast.Tuple) and len(t.elts) == len(n.value.elts):
+                            for a, b in zip(t.elts, n.value.elts):
+                                if isinstance(a, ast.Name) and a.id == X:
+                                    binds.append((n, b))
+            stores = [n for n in ast.walk(f.node) if isinstance(n, ast.Assign) and any(
+                isinstance(t, ast.Attribute) and t.attr == "exponent" and src_of(t.value) == X for t in n.targets)
+                and f"{me}.exponent" in src_of(n.value)]
+            for stmt, val in binds:
+                arm = _arm_of(f.node, stmt)
+                ok = _carries_exponent(val, me) or any(_arm_of(f.node, s_) == arm or _arm_of(f.node, s_) is None for s_ in stores)
+                label = f"TensorNetwork.{name}[{X}{'' if arm is None else ', ' + arm}]"
+                if ok:
+                    r.ok(label, sample={"function": name, "returned network": X, "bound from": src_of(val)[:50]})
+                else:
+                    r.bad(Finding(
+                        "carrier-derivation", f"TensorNetwork.{name}",
+                        f"on the {arm or 'only'} branch the returned network `{X}` is built by `{src_of(val)[:50]}` and never "
+                        f"receives {me}.exponent: the remaining network silently loses the stored exponent",
+                        where=where, operand=arm or "all"))
+    return r
+
+
+def _arm_of(fnode, stmt):
+    for n in ast.walk(fnode):
+        if isinstance(n, ast.If) and src_of(n.test).replace(" ", "") in ("inplace", "notinplace"):
+            pos = src_of(n.test).replace(" ", "") == "inplace"
+            if any(stmt is x for b in n.body for x in ast.walk(b)):
+                return "inplace=True" if pos else "inplace=False"
+            if any(stmt is x for b in n.orelse for x in ast.walk(b)):
+                return "inplace=False" if pos else "inplace=True"
+    return None
+
+
+def rule_hyper_count(ctx):
+    r = RuleResult(
+        "hyper-count",
+        "deciding which labels a local contraction sums requires the *global* number of holders of each label: "
+        "compute_contracted_inds compares the local frequency with len(self.ind_map[ix]) (inner/outer "
+        "classification alone cannot tell a bond from a hyper index held by three or more tensors) and keeps "
+        "explicitly requested outputs",
+    )
+    f = ctx.prog.func("quimb.tensor.tensor_core", "TensorNetwork.compute_contracted_inds")
+    where = f"{f.module.relpath}:{f.lineno}"
+    rets = [n for n in ast.walk(f.node) if isinstance(n, ast.Return) and n.value is not None]
+    ok_count = False
+    ok_out = False
+    for rt in rets:
+        for c in ast.walk(rt):
+            if isinstance(c, ast.Compare) and any(isinstance(x, ast.Call) and dotted(x.func) == "len" and "ind_map[" in src_of(x) for x in ast.walk(c)) \
+                    and isinstance(c.ops[0], (ast.NotEq, ast.Lt, ast.Eq, ast.GtE)):
+                ok_count = True
+            if isinstance(c, ast.Compare) and isinstance(c.ops[0], ast.In) and "output_inds" in src_of(c.comparators[0]):
+                ok_out = True
+    if ok_count:
+        r.ok("TensorNetwork.compute_contracted_inds[count]", sample={"keep if": "local count != len(self.ind_map[ix])"})
+    else:
+        r.bad(Finding("hyper-count", "TensorNetwork.compute_contracted_inds",
+                      "the keep/sum decision does not compare the local frequency with len(self.ind_map[ix]): a label held by "
+                      "three or more tensors is summed before all its holders are contracted", where=where, operand="count"))
+    if ok_out:
+        r.ok("TensorNetwork.compute_contracted_inds[outputs]")
+    else:
+        r.bad(Finding("hyper-count", "TensorNetwork.compute_contracted_inds", "explicit output labels are not kept", where=where, operand="outputs"))
+    return r
